@@ -1,3 +1,176 @@
+import Cello.Text
+import CelloGen.Text
 import Driver.Common
-/- driver for engine `text` — stub, replaced when the engine is built -/
-def main (_args : List String) : IO Unit := IO.println "O not-implemented"
+/- driver for engine `text` (C15).  Op file (see harness/h_text.c for the same grammar):
+
+     R <S|F> <start> <show|print> <item>...     write the items at position <start> of a String / File, read them back
+         item ::= s=<hex> | i=<dec> | f=<16 hex> | li=<dec> | ld=<dec> | lf=<16 hex> | t=<hex> | pc | z=<hex> (last only)
+     K <S|F> <start> <s|i|f|ld> x=<hex>         read one value of that kind from the given text at <start>
+
+   prints the observation line the C harness prints (`O …`) and, for `R`, a line `M rt=<0|1> contract=<0|1>`:
+   did the model itself read back what it wrote, consuming exactly that, and is the op inside the property's quantifier. -/
+open Cello.Text
+
+def hexVal (c : Char) : Option Nat :=
+  if '0' ≤ c ∧ c ≤ '9' then some (c.toNat - 48)
+  else if 'a' ≤ c ∧ c ≤ 'f' then some (c.toNat - 87)
+  else none
+
+def unhex : List Char → Option (List Nat)
+  | [] => some []
+  | [_] => none
+  | a :: b :: r => do
+    let x ← hexVal a
+    let y ← hexVal b
+    let t ← unhex r
+    pure ((x * 16 + y) :: t)
+
+def hexDigit (n : Nat) : Char := if n < 10 then Char.ofNat (48 + n) else Char.ofNat (87 + n)
+
+def hexOf (bs : List Nat) : String :=
+  String.ofList (bs.flatMap (fun b => [hexDigit (b / 16 % 16), hexDigit (b % 16)]))
+
+def hexFixed (n : Nat) (digits : Nat) : String :=
+  String.ofList ((List.range digits).reverse.map (fun k => hexDigit (n / 16 ^ k % 16)))
+
+def fnv (bs : List Nat) : Nat :=
+  bs.foldl (fun h b => ((h ^^^ b) * 1099511628211) % 2 ^ 64) 14695981039346656037
+
+/-- bytes as hex, or length and FNV-1a hash when long -/
+def dump (bs : List Nat) : String :=
+  if bs.length ≤ 300 then hexOf bs else s!"#{bs.length}:{hexFixed (fnv bs) 16}"
+
+/-- strict decimal int64: optional '-', 1..19 digits, in range -/
+def parseInt64 (s : String) : Option Int :=
+  let cs := s.toList
+  let (neg, ds) := match cs with
+    | '-' :: r => (true, r)
+    | _ => (false, cs)
+  if ds.isEmpty || ds.length > 19 || !ds.all (fun c => '0' ≤ c ∧ c ≤ '9') then none
+  else
+    let v : Nat := ds.foldl (fun a c => a * 10 + (c.toNat - 48)) 0
+    let n : Int := if neg then -(v : Int) else v
+    if inInt64 n then some n else none
+
+def parseNat (s : String) : Option Nat :=
+  let cs := s.toList
+  if cs.isEmpty || cs.length > 6 || !cs.all (fun c => '0' ≤ c ∧ c ≤ '9') then none
+  else some (cs.foldl (fun a c => a * 10 + (c.toNat - 48)) 0)
+
+def parseBits (s : String) : Option Nat :=
+  let cs := s.toList
+  if cs.length ≠ 16 then none
+  else match unhex cs with
+    | some bs => let v := bs.foldl (fun a b => a * 256 + b) 0; if fFinite v then some v else none
+    | none => none
+
+def splitEq (tok : String) : String × String :=
+  match tok.splitOn "=" with
+  | [a] => (a, "")
+  | a :: rest => (a, "=".intercalate rest)
+  | [] => ("", "")
+
+inductive Tok where
+  | item (it : Item)
+  | z (bs : List Nat)
+
+def parseTok (printMode : Bool) (tok : String) : Option Tok :=
+  if tok = "pc" then (if printMode then some (.item .pct) else none) else
+  let (k, v) := splitEq tok
+  if !tok.contains '=' then none else
+  match k with
+  | "s" => (unhex v.toList).bind fun bs => if bs.all (· != 0) then some (.item (.shw (.str bs))) else none
+  | "i" => (parseInt64 v).map fun n => .item (.shw (.int n))
+  | "f" => (parseBits v).map fun b => .item (.shw (.flt b))
+  | "li" => if printMode then (parseInt64 v).map fun n => .item (.li n) else none
+  | "ld" => if printMode then (parseInt64 v).map fun n => .item (.ld n) else none
+  | "lf" => if printMode then (parseBits v).map fun b => .item (.lf b) else none
+  | "t" => (unhex v.toList).bind fun bs =>
+      if !bs.isEmpty && bs.all (fun b => b != 0 && b != 37) then some (.item (.lit bs)) else none
+  | "z" => (unhex v.toList).bind fun bs => if bs.all (· != 0) then some (.z bs) else none
+  | _ => none
+
+/-- items and trailing text; `none` = ill-formed (z not last, adjacent literals, nothing to do) -/
+def parseItems (printMode : Bool) (toks : List String) : Option (List Item × List Nat) := do
+  let ts ← toks.mapM (parseTok printMode)
+  let rec go : List Tok → List Item → Option (List Item × List Nat)
+    | [], acc => some (acc.reverse, [])
+    | [.z bs], acc => some (acc.reverse, bs)
+    | .z _ :: _, _ => none
+    | .item it :: r, acc =>
+      match it, acc with
+      | .lit _, .lit _ :: _ => none
+      | _, _ => go r (it :: acc)
+  let (its, z) ← go ts []
+  if its.isEmpty then none else some (its, z)
+
+def filler (n : Nat) : List Nat :=
+  (List.range n).map fun i => [34, 55, 92, 32, 120][i % 5]!
+
+def showVal : Val → String
+  | .str s => "s:" ++ dump s
+  | .int n => "i:" ++ toString n
+  | .flt b => "f:" ++ hexFixed b 16
+
+def showVals (vs : List Val) : String :=
+  if vs.isEmpty then "-" else ",".intercalate (vs.map showVal)
+
+def showRes (k : Kind) (r : Res (Input × Nat)) : String × String :=
+  match r with
+  | .ok (i, p) => (toString p, match k with | .file => toString i.cur | .str => "-")
+  | .raised e => (e.name, "-")
+  | .ub => ("ub", "-")
+  | .unmodelled => ("unmodelled", "-")
+
+def parseKind (s : String) : Option Kind :=
+  if s = "S" then some .str else if s = "F" then some .file else none
+
+def valEqModel : Val → Val → Bool
+  | .flt a, .flt b => printF a == printF b     -- Float: equal to within the printed precision
+  | a, b => a == b
+
+def doR (k : Kind) (start : Nat) (its : List Item) (z : List Nat) : IO Unit := do
+  let c := srcCfg
+  let o : Sink := { kind := k, data := filler start }
+  let (o', wpos) := printItems c o start its
+  let text := o'.data.drop start
+  let inp : Input := { kind := k, text := o'.data ++ z, cur := start }
+  let (vals, r) := scanItems c inp start (its.map Item.shape)
+  let (rs, tell) := showRes k r
+  IO.println s!"O R w={wpos} text={dump text} r={rs} vals={showVals vals} tell={tell}"
+  let want := its.filterMap Item.val?
+  let rt : Bool := match r with
+    | .ok (i, p) => p == wpos && vals.length == want.length && (vals.zip want).all (fun (a, b) => valEqModel a b) &&
+        (k == .str || i.cur == wpos) && wpos == start + text.length
+    | _ => false
+  IO.println s!"M rt={if rt then 1 else 0} contract={if contractOK c k its z then 1 else 0}"
+
+def doK (k : Kind) (start : Nat) (sh : Shape) (text : List Nat) : IO Unit := do
+  let inp : Input := { kind := k, text := text, cur := start }
+  let (v, r) := scanItem srcCfg inp start sh
+  let (rs, tell) := showRes k r
+  IO.println s!"O K r={rs} val={showVals v.toList} tell={tell}"
+
+def main (args : List String) : IO Unit := do
+  let lines ← Driver.inputLines args
+  for l in lines do
+    if Driver.isSkippable l then continue
+    match l.splitOn " " with
+    | "R" :: src :: st :: mode :: toks =>
+      match parseKind src, parseNat st, (if mode = "show" then some false else if mode = "print" then some true else none) with
+      | some k, some start, some pm =>
+        if start > 4096 || toks.length > 64 then IO.println "O bad-op" else
+        match parseItems pm toks with
+        | some (its, z) => doR k start its z
+        | none => IO.println "O bad-op"
+      | _, _, _ => IO.println "O bad-op"
+    | ["K", src, st, kind, x] =>
+      let sh : Option Shape := match kind with
+        | "s" => some .str | "i" => some .int | "f" => some .flt | "ld" => some .ld | _ => none
+      let (xk, xv) := splitEq x
+      match parseKind src, parseNat st, sh, (if xk = "x" && x.contains '=' then unhex xv.toList else none) with
+      | some k, some start, some sh, some text =>
+        if start > text.length || (k == .str && text.any (· == 0)) then IO.println "O bad-op"
+        else doK k start sh text
+      | _, _, _, _ => IO.println "O bad-op"
+    | _ => IO.println "O bad-op"
